@@ -5,6 +5,7 @@ package main
 import (
 	"fmt"
 	"go/token"
+	"go/types"
 	"sort"
 	"strings"
 
@@ -334,12 +335,16 @@ func runC06(r *Run) {
 	r.RuleDoc("C06.R9", "condition wire: Canary-Failed, Canary-Paused, PodRestarting, Canary are written and read under one type each")
 	r.Floor("C06.R1", 6)
 	r.Floor("C06.R2", 4)
-	r.Floor("C06.R3", 4)
+	r.Floor("C06.R3", 6)
 	r.Floor("C06.R4", 2)
 	r.Floor("C06.R7", 2)
 	r.Floor("C06.R8", 5)
 	r.Floor("C06.R9", 6)
-	r.NotCovered("numeric and timing semantics of the triggers (timestamp arithmetic beyond operand roles, what HighestRestartCount counts); the zero-evaluable-pod case (outside the statement); trigger formulations other than `measured > threshold` comparisons and now.After(start.Add(max)) are reported as undecided rather than analysed; that the persisted conditions reach the API server (C14)")
+	r.Floor("C06.R10", 4)
+	r.Floor("C06.R11", 1)
+	r.RuleDoc("C06.R10", "HighestRestartCount, MostRecentRestart, CannotStart and PendingCreate iterate a list covering regular, init and ephemeral container statuses")
+	r.RuleDoc("C06.R11", "every canary pod counted as current is handed to the evaluation")
+	r.NotCovered("numeric and timing semantics of the triggers (timestamp arithmetic beyond operand roles); the zero-evaluable-pod case (outside the statement); trigger formulations other than `measured > threshold` comparisons and now.After(start.Add(max)) are reported as undecided rather than analysed; that the persisted conditions reach the API server (C14)")
 
 	_, reach := c06CanaryEntry(r)
 	if reach == nil {
@@ -370,6 +375,9 @@ func runC06(r *Run) {
 	}
 	c06Evaluation(c)
 	c06Sticky(c, reach)
+	failedConditionWrites(r, "C06.R3")
+	c06StatusLists(r)
+	c06AllCurrentEvaluated(c, reach)
 	canaryCreationGuard(r, "C06.R7")
 	c06Predicates(r)
 	c06Wire(c, reach)
@@ -1440,4 +1448,434 @@ func c06ConditionTypesRead(r *Run, fn *ssa.Function) ([]string, bool) {
 	}
 	sort.Strings(out)
 	return out, true
+}
+
+// ---------------------------------------------------------------------------------------------
+// R10: the extraction helpers look at every container of the pod
+
+// c06MustStatusLists returns the pod.Status.<X>ContainerStatuses fields from which the elements of
+// the slice v are guaranteed to derive: union over append operands, intersection over phi edges,
+// over the values stored into a local cell and over the returns of a repository callee that
+// receives the pod.
+func c06MustStatusLists(prog *Prog, v ssa.Value, pod ssa.Value, depth int, seen map[ssa.Value]bool) map[string]bool {
+	out := map[string]bool{}
+	if v == nil || depth > 12 || seen[v] {
+		return out
+	}
+	seen[v] = true
+	defer delete(seen, v)
+	inter := func(sets []map[string]bool) map[string]bool {
+		if len(sets) == 0 {
+			return map[string]bool{}
+		}
+		acc := map[string]bool{}
+		for k := range sets[0] {
+			acc[k] = true
+		}
+		for _, s := range sets[1:] {
+			for k := range acc {
+				if !s[k] {
+					delete(acc, k)
+				}
+			}
+		}
+		return acc
+	}
+	switch x := v.(type) {
+	case *ssa.Phi:
+		var sets []map[string]bool
+		ff := c06FactsOf(x.Parent())
+		for i, e := range x.Edges {
+			if seen[e] {
+				continue // loop-carried self reference
+			}
+			set := c06MustStatusLists(prog, e, pod, depth+1, seen)
+			for k := range c06EmptyLists(ff.FactsAtEdge(x.Block().Preds[i], x.Block()), pod) {
+				set[k] = true // the list is known to be empty on this edge: nothing to contain
+			}
+			sets = append(sets, set)
+		}
+		return inter(sets)
+	case *ssa.Slice:
+		return c06MustStatusLists(prog, x.X, pod, depth+1, seen)
+	case *ssa.ChangeType:
+		return c06MustStatusLists(prog, x.X, pod, depth+1, seen)
+	case *ssa.Convert:
+		return c06MustStatusLists(prog, x.X, pod, depth+1, seen)
+	case *ssa.Call:
+		if b, ok := x.Call.Value.(*ssa.Builtin); ok && b.Name() == "append" {
+			for _, a := range x.Call.Args {
+				for k := range c06MustStatusLists(prog, a, pod, depth+1, seen) {
+					out[k] = true
+				}
+			}
+			return out
+		}
+		g := staticCallee(&x.Call)
+		if g == nil || !prog.IsRuleSite(g) {
+			return out
+		}
+		var gp *ssa.Parameter
+		for i, a := range x.Call.Args {
+			if stripConv(a) == pod && i < len(g.Params) {
+				gp = g.Params[i]
+			}
+		}
+		if gp == nil {
+			return out
+		}
+		var sets []map[string]bool
+		for _, b := range g.Blocks {
+			if ret := returnOf(b); ret != nil && len(ret.Results) >= 1 {
+				set := c06MustStatusLists(prog, ret.Results[0], gp, depth+1, map[ssa.Value]bool{})
+				for k := range c06EmptyLists(c06FactsOf(g).At(b), gp) {
+					set[k] = true
+				}
+				sets = append(sets, set)
+			}
+		}
+		return inter(sets)
+	case *ssa.UnOp:
+		if x.Op != token.MUL {
+			return out
+		}
+		if a, ok := x.X.(*ssa.Alloc); ok {
+			var sets []map[string]bool
+			for _, rf := range refs(a) {
+				if st, ok := rf.(*ssa.Store); ok && st.Addr == ssa.Value(a) {
+					sets = append(sets, c06MustStatusLists(prog, st.Val, pod, depth+1, seen))
+				}
+			}
+			return inter(sets)
+		}
+		ps := pathsOf(x)
+		if len(ps) == 1 && ps[0].root == pod && len(ps[0].fields) == 2 && ps[0].fields[0] == "Status" {
+			out[ps[0].fields[1]] = true
+		}
+		return out
+	}
+	return out
+}
+
+func c06StatusLists(r *Run) {
+	want := []string{"ContainerStatuses", "InitContainerStatuses", "EphemeralContainerStatuses"}
+	for _, name := range []string{"HighestRestartCount", "MostRecentRestart", "CannotStart", "PendingCreate"} {
+		fn := r.Prog.Func(pkgPodUtils, name)
+		if fn == nil || len(fn.Params) != 1 {
+			r.Fatal("anchor %s.%s(pod) not found", pkgPodUtils, name)
+			continue
+		}
+		pod := ssa.Value(fn.Params[0])
+		// the container-status slices the helper iterates
+		iter := map[ssa.Value]bool{}
+		for _, b := range fn.Blocks {
+			for _, in := range b.Instrs {
+				var x ssa.Value
+				switch y := in.(type) {
+				case *ssa.IndexAddr:
+					x = y.X
+				case *ssa.Index:
+					x = y.X
+				case *ssa.Range:
+					x = y.X
+				}
+				if x == nil {
+					continue
+				}
+				if sl, ok := x.Type().Underlying().(*types.Slice); ok && typeName(sl.Elem()) == pkgCoreV1+".ContainerStatus" {
+					iter[x] = true
+				}
+			}
+		}
+		pos := r.Prog.Pos(fn.Pos())
+		if len(iter) == 0 {
+			r.Check("C06.R10", "container statuses examined", pos, shortFunc(fn), "the helper iterates a list of the pod's container statuses", false, "no iteration over []ContainerStatus found")
+			continue
+		}
+		okAll, detail := true, ""
+		for x := range iter {
+			got := c06MustStatusLists(r.Prog, x, pod, 0, map[ssa.Value]bool{})
+			var missing []string
+			for _, w := range want {
+				if !got[w] {
+					missing = append(missing, "pod.Status."+w)
+				}
+			}
+			if len(missing) > 0 {
+				okAll = false
+				detail = "the iterated list is not guaranteed to contain " + strings.Join(missing, ", ")
+			}
+		}
+		r.Check("C06.R10", "container statuses examined", pos, shortFunc(fn),
+			"the helper looks at every container of the pod: regular, init and ephemeral container statuses", okAll, detail)
+	}
+}
+
+// ---------------------------------------------------------------------------------------------
+// R11: every pod counted as current is handed to the evaluation
+
+func c06AllCurrentEvaluated(c *c06Ctx, reach map[*ssa.Function]bool) {
+	r := c.r
+	// which parameter of the evaluation is the list of pods it iterates
+	var podsParam *ssa.Parameter
+	for _, ci := range callsIn(c.eval) {
+		call, ok := ci.(*ssa.Call)
+		if !ok || calleeName(&call.Call) != pkgPodUtils+".HighestRestartCount" {
+			continue
+		}
+		ps := pathsOf(stripConv(call.Call.Args[0]))
+		if len(ps) == 1 {
+			if ia, ok := ps[0].root.(*ssa.IndexAddr); ok {
+				podsParam, _ = stripConv(ia.X).(*ssa.Parameter)
+			}
+		}
+	}
+	if podsParam == nil {
+		r.Undecided("C06.R11", "evaluated pods", r.Prog.Pos(c.eval.Pos()), shortFunc(c.eval), "the evaluated pod is not an element of a slice parameter")
+		return
+	}
+	n := 0
+	for _, fn := range sortedFuncs(reach) {
+		for _, ci := range callsIn(fn) {
+			if staticCallee(ci.Common()) != c.eval {
+				continue
+			}
+			n++
+			c06EvaluatedAt(c, fn, ci, ci.Common().Args[paramIndex(podsParam)])
+		}
+	}
+	if n == 0 {
+		r.Check("C06.R11", "evaluated pods", r.Prog.Pos(c.eval.Pos()), shortFunc(c.eval), "the evaluation is called", false, "no call site")
+	}
+}
+
+func c06EvaluatedAt(c *c06Ctx, fn *ssa.Function, ci ssa.CallInstruction, pods ssa.Value) {
+	r := c.r
+	pos := r.Prog.Pos(ci.Pos())
+	fname := shortFunc(fn)
+	construct := "every pod counted as current is evaluated"
+	podsPhi, ok := stripConv(pods).(*ssa.Phi)
+	if !ok {
+		r.Undecided("C06.R11", construct, pos, fname, "the list of pods handed to the evaluation is not built by a loop in this function")
+		return
+	}
+	// the counter stored into NewStatus.Current
+	var curPhi *ssa.Phi
+	for _, st := range storesToFieldOf(fn, pkgAPI, "ExtendedDaemonSetReplicaSetStatus", "Current") {
+		if ph, isPhi := stripConv(st.Val).(*ssa.Phi); isPhi {
+			curPhi = ph
+		}
+	}
+	header := podsPhi.Block()
+	if curPhi == nil || curPhi.Block() != header {
+		r.Undecided("C06.R11", construct, pos, fname, "the counter stored into NewStatus.Current is not a loop variable of the loop that builds the list of evaluated pods")
+		return
+	}
+	k := newKeyer(fn)
+	paths, okp := loopBodyPaths(fn, k, header, 20000)
+	r.paths += len(paths)
+	if !okp {
+		r.Undecided("C06.R11", construct, pos, fname, "path cap exceeded")
+		return
+	}
+	edgeOf := func(phi *ssa.Phi, pred *ssa.BasicBlock) ssa.Value {
+		for j, pb := range phi.Block().Preds {
+			if pb == pred {
+				return phi.Edges[j]
+			}
+		}
+		return nil
+	}
+	// resolve phis inside the body along the path; phis of the loop header are the loop variables
+	resolve := func(p *Path, v ssa.Value) ssa.Value {
+		for i := 0; i < 32; i++ {
+			ph, isPhi := v.(*ssa.Phi)
+			if !isPhi || ph.Block() == header {
+				return v
+			}
+			nv := p.ResolveOnce(v)
+			if nv == v {
+				return v
+			}
+			v = nv
+		}
+		return v
+	}
+	okAll, detail, nCounted := true, "", 0
+	for _, p := range paths {
+		if len(p.Blocks) < 2 || p.Blocks[len(p.Blocks)-1] != header {
+			continue
+		}
+		pred := p.Blocks[len(p.Blocks)-2]
+		cv := edgeOf(curPhi, pred)
+		if cv == nil {
+			continue
+		}
+		cv = resolve(p, cv)
+		if stripConv(cv) == ssa.Value(curPhi) {
+			continue // not counted as current on this path
+		}
+		nCounted++
+		pv := edgeOf(podsPhi, pred)
+		if pv != nil {
+			pv = resolve(p, pv)
+		}
+		appended := false
+		if call, isC := pv.(*ssa.Call); isC {
+			if b, isB := call.Call.Value.(*ssa.Builtin); isB && b.Name() == "append" && len(call.Call.Args) == 2 && resolve(p, call.Call.Args[0]) == ssa.Value(podsPhi) {
+				elems, complete := varargElems(call.Call.Args[1])
+				if complete {
+					for _, e := range elems {
+						e := e
+						if p.Has(false, func(v ssa.Value, _ string) bool {
+							return isNilCompareOf(v, func(x ssa.Value) bool { return x == e })
+						}) {
+							appended = true
+						}
+					}
+				}
+			}
+		}
+		if !appended && okAll {
+			okAll = false
+			detail = "an iteration counts the pod as current but does not append it to the pods handed to the evaluation: " + shortFacts(p)
+		}
+	}
+	if nCounted == 0 {
+		okAll, detail = false, "no iteration path counts a pod as current"
+	}
+	r.Check("C06.R11", construct, pos, fname,
+		"on every iteration of the canary-node loop that counts the pod in NewStatus.Current (up to date, not terminating) the pod is appended to the list passed to the evaluation", okAll, detail)
+}
+
+// ---------------------------------------------------------------------------------------------
+// stickiness across roles (C06.R3 / C07.R5): constant-False writes of the Canary-Failed condition
+
+// failedConditionWrites checks every write of the condition type that the canary evaluation writes
+// from Result.IsFailed, reachable from the replica-set Reconcile: the status is either derived
+// from IsFailed, the constant True, or the constant False under the must-fact role == active.
+func failedConditionWrites(r *Run, rule string) {
+	eval := c06FindEval(r)
+	rec := r.Prog.Method(pkgERS, "Reconciler", "Reconcile")
+	if eval == nil || rec == nil {
+		r.Fatal("anchor (%s.Reconciler).Reconcile or the canary evaluation function not found", pkgERS)
+		return
+	}
+	w := c06FlagConditionWrite(eval, "IsFailed")
+	if w == nil || w.typ == "" {
+		r.Check(rule, "Canary-Failed writes", r.Prog.Pos(eval.Pos()), shortFunc(eval), "the canary evaluation writes a condition from IsFailed", false, "not found")
+		return
+	}
+	active, okA := r.Prog.constStr(pkgStrategy, "ReplicaSetStatusActive")
+	if !okA {
+		r.Fatal("constant %s.ReplicaSetStatusActive not found", pkgStrategy)
+		return
+	}
+	isRole := func(v ssa.Value) bool {
+		v = stripConv(v)
+		return allPathsEnd(v, "ReplicaSetStatus") || (isNamedType(v.Type(), pkgStrategy, "ReplicaSetStatus") && dependsOn(v, func(x ssa.Value) bool { return allPathsEnd(x, "ReplicaSetStatus") }))
+	}
+	n := 0
+	for _, fn := range sortedFuncs(r.Prog.reachableFuncs(rec)) {
+		var ff *FuncFacts
+		for _, ci := range callsIn(fn) {
+			call, ok := ci.(*ssa.Call)
+			if !ok || calleeName(&call.Call) != pkgERSCond+".UpdateExtendedDaemonSetReplicaSetStatusCondition" || len(call.Call.Args) < 4 {
+				continue
+			}
+			t, okT := condTypeConst(call)
+			pos := r.Prog.Pos(call.Pos())
+			if !okT {
+				r.Undecided(rule, "condition write with a computed type", pos, shortFunc(fn), "the condition type is not a constant, it may be "+w.typ)
+				continue
+			}
+			if t != w.typ {
+				continue
+			}
+			n++
+			if call == w.call {
+				r.Check(rule, w.typ+" written from IsFailed", pos, shortFunc(fn), "the canary strategy writes the condition from the sticky flag", true, "")
+				continue
+			}
+			st, isConst := constString(call.Call.Args[3])
+			if !isConst {
+				r.Undecided(rule, w.typ+" written with a computed status", pos, shortFunc(fn), "the status is neither a constant nor BoolToCondition(Result.IsFailed)")
+				continue
+			}
+			if st == "True" {
+				o := r.Check(rule, w.typ+"=True", pos, shortFunc(fn), "writing True never un-fails a canary", true, "")
+				o.Trivial = true
+				continue
+			}
+			if ff == nil {
+				ff = computeFacts(fn)
+			}
+			okRole := ff.AtExpanded(call.Block()).any(true, func(v ssa.Value, _ string) bool {
+				return isEqCompare(v, isRole, isConstStringVal(active))
+			})
+			detail := ""
+			if !okRole {
+				detail = "the reset is not dominated by the fact role == \"" + active + "\"; must-facts: " + shortSet(ff.At(call.Block()))
+			}
+			r.Check(rule, w.typ+"="+st+" reset", pos, shortFunc(fn),
+				"the failure verdict is reset only for the replica set that has become the active one (a failed canary turns 'unknown' once status.canary is cleared and must keep its verdict: retention, rollback retry)", okRole, detail)
+		}
+	}
+	if n == 0 {
+		r.Check(rule, "Canary-Failed writes", "-", "-", "the condition is written somewhere under the replica-set Reconcile", false, "none found")
+	}
+}
+
+var c06FactsCache = map[*ssa.Function]*FuncFacts{}
+
+func c06FactsOf(fn *ssa.Function) *FuncFacts {
+	if ff, ok := c06FactsCache[fn]; ok {
+		return ff
+	}
+	ff := computeFacts(fn)
+	c06FactsCache[fn] = ff
+	return ff
+}
+
+// c06EmptyLists returns the pod.Status.<X> lists that the facts show to be empty
+// (len(X) == 0, !(len(X) > 0), X == nil).
+func c06EmptyLists(facts factSet, pod ssa.Value) map[string]bool {
+	out := map[string]bool{}
+	listOf := func(v ssa.Value) string {
+		ps := pathsOf(stripConv(v))
+		if len(ps) == 1 && ps[0].root == pod && len(ps[0].fields) == 2 && ps[0].fields[0] == "Status" {
+			return ps[0].fields[1]
+		}
+		return ""
+	}
+	lenOf := func(v ssa.Value) string {
+		call, ok := stripConv(v).(*ssa.Call)
+		if !ok || len(call.Call.Args) != 1 {
+			return ""
+		}
+		if b, isB := call.Call.Value.(*ssa.Builtin); !isB || b.Name() != "len" {
+			return ""
+		}
+		return listOf(call.Call.Args[0])
+	}
+	isZero := func(v ssa.Value) bool { z, ok := constInt(v); return ok && z == 0 }
+	for _, f := range facts {
+		if x, y, ok := eqOperands(f.V); ok && f.Pol {
+			switch {
+			case isZero(y) && lenOf(x) != "":
+				out[lenOf(x)] = true
+			case isZero(x) && lenOf(y) != "":
+				out[lenOf(y)] = true
+			case isNilConst(y) && listOf(x) != "":
+				out[listOf(x)] = true
+			case isNilConst(x) && listOf(y) != "":
+				out[listOf(y)] = true
+			}
+			continue
+		}
+		if big, small, _, ok := factOrder(f); ok && isZero(big) && lenOf(small) != "" {
+			out[lenOf(small)] = true // 0 >= len(X)
+		}
+	}
+	return out
 }
